@@ -45,7 +45,8 @@ func cmdRace(args []string) {
 		"//a/b[2]", "//e/*[last()]/text()", "count(//b | //c)", "//b[c][1]", "(//b | //c)[2]", "concat(//b, '-', //c, '-', //d)",
 		"floor(//b + //c)", "round(//b * 2) = 2", "string(-//b)", "number(//b + 1) > 1", "ceiling(sum(//e/*) div 2)",
 		"string-length(concat(//b, //c)) + 1", "not(//b + 1 = 2)", "//*[floor(b + 1) = 2]", "matches(string(//b), 'a|ab')",
-		"replace(string(//c), 'x|xy', 'z')",
+		"replace(string(//c), 'x|xy', 'z')", "replace(string(//b), '([0-9])(.?)', '$2-$1')", "replace(concat(//b, //c), '(.)(.)(.)', '$3$2$1$0')",
+		"string-join(//b, replace(string(//c), '(x)', '[$1]'))",
 		"//*[@a and (b or c)]", "//b[. = //e/b]", "sum(//e/*) div count(//e/*)", "string(//e/c) = '3'",
 	}
 	type mism struct {
@@ -83,12 +84,22 @@ func cmdRace(args []string) {
 			want := make([]Outcome, *k)
 			for i := range jobs {
 				jobs[i] = job{[]string{"Select", "Evaluate"}[g.R.Intn(2)], 1 + g.R.Intn(d.Len())}
-				fresh, _ := xpath.Compile(text)
-				if jobs[i].op == "Select" {
-					want[i] = doSelect(fresh, d, jobs[i].ctx, false)
-				} else {
-					want[i] = doEvaluate(fresh, d, jobs[i].ctx, false)
+			}
+			// the sequential reference (a fresh compile per call) is computed AFTER the concurrent phase in the first
+			// round of an expression, so that anything the engine initialises or memoises on first use (per expression
+			// text, per pattern, per template) is first touched by several goroutines at once
+			reference := func() {
+				for i := range jobs {
+					fresh, _ := xpath.Compile(text)
+					if jobs[i].op == "Select" {
+						want[i] = doSelect(fresh, d, jobs[i].ctx, false)
+					} else {
+						want[i] = doEvaluate(fresh, d, jobs[i].ctx, false)
+					}
 				}
+			}
+			if r > 0 {
+				reference()
 			}
 			got := make([]Outcome, *k)
 			var wg sync.WaitGroup
@@ -117,6 +128,9 @@ func cmdRace(args []string) {
 			}
 			close(start)
 			wg.Wait()
+			if r == 0 {
+				reference()
+			}
 			for i := range jobs {
 				calls++
 				if !reflect.DeepEqual(want[i], got[i]) {
